@@ -64,23 +64,66 @@ impl<T: Qcow2IoOps> Qcow2Dev<T> {
             stop
         );
 
+        // Unmap first and release afterwards: the cleared L2 entries have
+        // to reach the disk before the refcounts of the released clusters
+        // drop there, otherwise a crash in between leaves an L2 entry that
+        // points to a cluster the refcounts call free.
+        let mut released = Vec::new();
+        let mut res = Ok(());
         let mut guest = start;
         while guest < stop {
-            self.__discard_one_cluster(guest).await?;
+            match self.__discard_one_cluster(guest).await {
+                Ok(Some(allocation)) => released.push(allocation),
+                Ok(None) => {}
+                Err(e) => {
+                    res = Err(e);
+                    break;
+                }
+            }
             guest += cluster_size;
         }
 
-        Ok(())
+        if released.is_empty() {
+            return res;
+        }
+
+        // same order as any other mapping flush: refcounts of clusters
+        // mapped meanwhile go first, then the L2 slices
+        self.flush_refcount().await?;
+        {
+            let l1 = self.l1table.read().await;
+            self.flush_mapping(&l1).await?;
+        }
+        self.call_fsync(0, usize::MAX, 0).await?;
+
+        for (host_cluster, host_count) in released {
+            // Refcount-release the host cluster(s). For ordinary (non-
+            // compressed) entries this is always a single cluster, but we
+            // pass `host_count` through to mirror the existing free_clusters
+            // call sites in the COW path.
+            self.free_clusters(host_cluster, host_count).await?;
+
+            // Punch the host file so the OS reclaims the bytes. The
+            // FALLOCATE_ZERO_RANGE flag asks for both hole-punch + reads-as-
+            // zero semantics. On filesystems that don't support either,
+            // call_fallocate falls back to writing zeros (see `call_fallocate`
+            // implementation), so the LBPRZ-equivalent contract still holds.
+            let punch_len = host_count * info.cluster_size();
+            self.call_fallocate(host_cluster, punch_len, Qcow2OpsFlags::FALLOCATE_ZERO_RANGE)
+                .await?;
+        }
+
+        res
     }
 
     /// Discard a single guest cluster at `guest_offset` (cluster-aligned).
     ///
-    /// Returns `Ok(())` for every non-fatal case: already-unallocated,
+    /// Only unmaps the cluster; returns the host allocation the caller has
+    /// to release once the unmapping is on disk. `Ok(None)` for every
+    /// case in which there is nothing to release: already-unallocated,
     /// zero-flagged, compressed, or L2-slice-absent ranges all silently
-    /// no-op. The only errors are propagated from `free_clusters` /
-    /// `call_fallocate` failures (genuine IO errors on the host file
-    /// or refcount metadata).
-    async fn __discard_one_cluster(&self, guest_offset: u64) -> Qcow2Result<()> {
+    /// no-op. Errors are propagated from loading the L2 slice.
+    async fn __discard_one_cluster(&self, guest_offset: u64) -> Qcow2Result<Option<(u64, usize)>> {
         let info = &self.info;
         debug_assert_eq!(info.in_cluster_offset(guest_offset), 0);
         let split = SplitGuestOffset(guest_offset);
@@ -88,7 +131,7 @@ impl<T: Qcow2IoOps> Qcow2Dev<T> {
         // Fast path: no L2 slice exists for this region; nothing to free.
         let l1_e = self.get_l1_entry(&split).await?;
         if l1_e.is_zero() {
-            return Ok(());
+            return Ok(None);
         }
 
         let l2_handle = self.get_l2_slice(&split).await?;
@@ -99,13 +142,13 @@ impl<T: Qcow2IoOps> Qcow2Dev<T> {
         // Compressed clusters share host sectors; punching could corrupt
         // a neighbor. Leave them mapped.
         if entry.is_compressed() {
-            return Ok(());
+            return Ok(None);
         }
 
         let allocation = entry.allocation(info.cluster_bits() as u32);
         let Some((host_cluster, host_count)) = allocation else {
             // Unallocated or zero-flagged-only entry — nothing to release.
-            return Ok(());
+            return Ok(None);
         };
 
         // Clear the L2 entry: all zeros is the unallocated state, which reads
@@ -120,21 +163,6 @@ impl<T: Qcow2IoOps> Qcow2Dev<T> {
         self.mark_need_flush(true);
         drop(l2_table);
 
-        // Refcount-release the host cluster(s). For ordinary (non-
-        // compressed) entries this is always a single cluster, but we
-        // pass `host_count` through to mirror the existing free_clusters
-        // call sites in the COW path.
-        self.free_clusters(host_cluster, host_count).await?;
-
-        // Punch the host file so the OS reclaims the bytes. The
-        // FALLOCATE_ZERO_RANGE flag asks for both hole-punch + reads-as-
-        // zero semantics. On filesystems that don't support either,
-        // call_fallocate falls back to writing zeros (see `call_fallocate`
-        // implementation), so the LBPRZ-equivalent contract still holds.
-        let punch_len = host_count * info.cluster_size();
-        self.call_fallocate(host_cluster, punch_len, Qcow2OpsFlags::FALLOCATE_ZERO_RANGE)
-            .await?;
-
-        Ok(())
+        Ok(Some((host_cluster, host_count)))
     }
 }
